@@ -565,6 +565,7 @@ func asyncPart(rep *hx.Report, seed int64, rounds int) {
 		per := 20 + r.Intn(200)
 		backlog := round%2 == 0
 		replay := map[string]interface{}{"harness": "taskpool", "part": "async", "producers": producers, "per_producer": per, "backlog_over_1024": backlog, "seed": seed, "round": round}
+		hx.Current("C19", "the process died (a panic or fatal error inside the library) while this Timer.Async workload ran", replay)
 		fail := func(sig, what string) {
 			rep.Add(hx.Finding{Kind: "oracle", Property: "C19", Signature: sig, What: what, Replay: replay})
 			failures++
@@ -676,6 +677,9 @@ func main() {
 	out := flag.String("out", "-", "")
 	verbose := flag.Bool("v", false, "progress on stderr")
 	flag.Parse()
+	if *out != "-" && *out != "" {
+		hx.CurrentFile = *out + ".current"
+	}
 	logging.SetLevel(logging.LevelNone)
 	rep := hx.NewReport("taskpool", *seed)
 	rep.Rule = "task pool scenarios: bound 0-8, queue 0-64, default and custom caller, plain and IO pool; blocked fill (state compared with the model after every Go), barrier of mutually waiting tasks, 0-3 overload rounds of 2-6 submitters x 5-60 short tasks (some panicking) above the bound with the queue full, the same fill and barrier after the overload, then Stop with blocked accepted tasks and Go calls racing it; Async: 1-4 producers x 20-220 functions, every second round behind a blocked function with a backlog of 1100-1400; non-trivial = overload rounds > 0 or submissions racing Stop; distinct = distinct scenario parameters"
